@@ -137,6 +137,43 @@ def lean_dict_lines(m):
     return lines, want
 
 
+def enc(v):
+    """attribute values as the key scheme sees them (`value == default` decides whether a key is written)"""
+    if isinstance(v, bool):
+        return str(v)
+    if isinstance(v, float):
+        import math
+        if not math.isfinite(v):
+            return str(v)
+        return int(v) if v == int(v) else v
+    if isinstance(v, (dict, list, tuple, set)):
+        return ({} if isinstance(v, dict) else []) if len(v) == 0 else json.loads(json.dumps(v, default=str, sort_keys=True))
+    return v
+
+
+def scheme_lines(m):
+    """Objects of a model as lines for the Lean key scheme, and the keys cobrapy's own writers produce for them."""
+    from cobra.io.dict import _gene_to_dict, _metabolite_to_dict, _reaction_to_dict
+    import translate_dictkeys
+    tables = {k: r + [x for x, _ in o] for k, (r, o) in translate_dictkeys.read_tables().items()}
+    lines, want = [], []
+    for kind, objs, writer in (("metabolite", m.metabolites, _metabolite_to_dict), ("gene", m.genes, _gene_to_dict),
+                               ("reaction", m.reactions, _reaction_to_dict)):
+        for o in objs:
+            attrs = {}
+            for k in tables[kind]:
+                if k == "metabolites":
+                    attrs[k] = "stoichiometry"            # always written; its content is the reaction model's subject
+                elif hasattr(o, k):
+                    attrs[k] = enc(getattr(o, k))
+            lines.append(json.dumps({"scheme": kind, "attrs": attrs}))
+            want.append(list(writer(o).keys()))
+    attrs = {k: ("list" if k in ("metabolites", "reactions", "genes") else enc(getattr(m, k))) for k in tables["model"] if hasattr(m, k) or k in ("metabolites", "reactions", "genes")}
+    lines.append(json.dumps({"scheme": "model", "attrs": attrs}))
+    want.append([k for k in model_to_dict(m).keys() if k != "version"])
+    return lines, want
+
+
 def run(ctx):
     if getattr(ctx, "replay", None):
         data = json.loads(open(ctx.replay).read())
@@ -148,7 +185,10 @@ def run(ctx):
                 print(f"VIOLATION property=C11 replay={ctx.replay}")
                 return 1
         return 0
-    common.proof_stage(ctx, "CobraModel.Props.C11", extra_scan=["CobraModel/Model/DictIO.lean"])
+    import translate_dictkeys
+    common.proof_stage(ctx, "CobraModel.Props.C11", extra_scan=["CobraModel/Model/DictIO.lean", "CobraModel/Model/DictScheme.lean",
+                                                              "CobraModel/Lemmas/DictScheme.lean", "CobraModel/Gen/DictKeys.lean"],
+                       regenerate=translate_dictkeys.regenerate)
     rng = ctx.rng
     n = ctx.scale(200, 5000)
     ran = 0
@@ -179,6 +219,17 @@ def run(ctx):
                 if o.get("dict") != w or o.get("roundtrip") is not True:
                     ctx.broken.append({"kind": "correspondence", "name": "DictIO.toDict vs cobra.io.dict._reaction_to_dict",
                                        "detail": f"model {o} vs implementation {w}", "line": json.loads(l)})
+                else:
+                    corr_ok += 1
+            # the key scheme (which keys are written for metabolites, genes, reactions and the model itself)
+            lines, want = scheme_lines(m)
+            out = [json.loads(l) for l in common.run_driver_persistent("dictio", lines)]
+            for l, w, o in zip(lines, want, out):
+                corr_n += 1
+                if o.get("keys") != w or o.get("roundtrip") is not True:
+                    if len(ctx.broken) < 3:
+                        ctx.broken.append({"kind": "correspondence", "name": "DictScheme.toDict vs cobra.io.dict writers (keys written)",
+                                           "detail": f"model {o} vs implementation {w}", "line": json.loads(l)})
                 else:
                     corr_ok += 1
     ctx.coverage.update({
